@@ -109,9 +109,15 @@ package crlstore
 //@   requires closableOK(self)
 //@   assigns X.fs
 //@ func CRLStore.Delete
-//@   props C18 C20
+//@   props C18 C20 C08
 //@   requires closableOK(self)
 //@   assigns X.fs
+
+// Delete removes the store's own directory and nothing else: the temporary store of a failed refresh shares
+// BasePath and Identifier with the live store, only LevelDBPath tells them apart.
+//@ func LevelDbStore.Delete
+//@   props C08 C12 C20
+//@   ensures[C08,C12,C20] deletes_its_own_directory: called(LevelDbStore.removeWithRetries#1) && arg(LevelDbStore.removeWithRetries#1, 1) == old(S.LevelDBPath)
 
 //@ spec func factoryOK(f ref) bool = f != nil && (typeis(f, MapStoreFactory) ==> as(f, MapStoreFactory).Serializer != nil) && (typeis(f, LevelDbStoreFactory) ==> as(f, LevelDbStoreFactory).Serializer != nil && as(f, LevelDbStoreFactory).Logger != nil)
 
